@@ -283,8 +283,17 @@ void gvt_msg_drain(void)
 
 	for(int i = 0; i < 2; ++i) { // flush both gvt phases
 		gvt_timer = 0;       // this satisfies the timer condition
-		while(!gvt_phase_run())
+		// wait for the completion of the round itself, not for a non-zero value: a computed GVT of 0.0 is
+		// indistinguishable from the "no GVT yet" return value of gvt_phase_run()
+		while(1) {
+			if(thread_phase) {
+				if(gvt_node_phase_run())
+					break;
+			} else {
+				gvt_phase_run();
+			}
 			mpi_remote_msg_drain();
+		}
 	}
 }
 
